@@ -15,6 +15,11 @@ VERIF = os.path.dirname(os.path.dirname(os.path.abspath(__file__)))
 SPEC = os.path.join(VERIF, "spec")
 HARNESS = os.path.join(VERIF, "harness")
 REPO = os.environ.get("VERIF_REPO", "/repo")
+try:
+    with open(os.path.join(os.path.dirname(os.path.dirname(os.path.abspath(__file__))), "spec", "expected_kinds.json")) as _f:
+        EXPECTED_KINDS = json.load(_f)
+except (OSError, ValueError):
+    EXPECTED_KINDS = {}
 TLA_CP = "/opt/veriftools/tla/tla2tools.jar:/opt/veriftools/tla/CommunityModules-deps.jar"
 NCPU = os.cpu_count() or 4
 
@@ -50,6 +55,7 @@ class Ctx:
         self.exhaustive = False
         self.notes = []
         self.stage_info = []
+        self.event_kinds = {}   # family -> {kind: events written}
         self.bin = None
 
     def thorough(self):
@@ -180,6 +186,23 @@ class Ctx:
             self.crash = {"family": family, "rc": p.returncode,
                           "stderr": p.stderr if len(p.stderr) < 4500 else p.stderr[:2500] + "\n...\n" + p.stderr[-1500:]}
             raise HarnessDied(family, p.returncode, p.stderr, out)
+        # the harness's summary line lists the events it wrote by kind: a generator branch that stopped producing (a
+        # generator fault, never a verdict) is noticed by comparing with the committed list spec/expected_kinds.json
+        for line in p.stdout.splitlines():
+            if line.startswith('{"family"'):
+                try:
+                    kinds = json.loads(line).get("kinds", {})
+                except ValueError:
+                    kinds = {}
+                have = self.event_kinds.setdefault(name or family, {})
+                for k, n in kinds.items():
+                    have[k] = have.get(k, 0) + n
+                if not cases and p.returncode == 0 and not os.environ.get("VERIF_NO_KINDS"):
+                    want = EXPECTED_KINDS.get(name or family, {}).get(self.tier, [])
+                    missing = [k for k in want if not kinds.get(k)]
+                    if missing:
+                        raise CheckError("harness %s wrote no event of kind %s (spec/expected_kinds.json): a generator branch is dead"
+                                         % (family, ", ".join(missing)))
         files = sorted(os.path.join(out, f) for f in os.listdir(out) if f.endswith(".ndjson"))
         return [f for f in files if os.path.getsize(f) > 0]
 
@@ -307,6 +330,7 @@ def finish(ctx, signature, level_rule, assumptions, trusted_base, extra_cov=None
         "tlc_generated_cases_replayed": ctx.replayed,
         "model_checking_runs": ctx.mc_runs,
         "trace_validation_stages": ctx.stage_info,
+        "events_by_kind": ctx.event_kinds,
         "rejected_events": len(ctx.rejected),
         "known_finding_events": sum(known_hits.values()),
         "trusted_base": trusted_base,
